@@ -126,7 +126,8 @@ def run_ns(stage, uid, user=None, euid=None, by_name=False, no_out=False):
              + '--dry-run --no-kmsg-log' + ('' if no_out else f' {out}'))
     p = subprocess.run(['unshare', '-m', 'sh', '-c', inner], capture_output=True, timeout=60)
     so = p.stdout.decode('utf-8', 'replace')
-    return p.returncode, set(re.findall(r'^Environment=ORIGIN=(.*)$', so, re.M)), p.stderr.decode('utf-8', 'replace')
+    # (DROPIN markers come from drop-in directories staged where the generator at hand must not look at all)
+    return p.returncode, set(re.findall(r'^Environment=ORIGIN=(.*)$', so, re.M)) | {'DROPIN:' + x for x in re.findall(r'^Environment=DROPIN=(.*)$', so, re.M)}, p.stderr.decode('utf-8', 'replace')
 
 
 def oracle(ctx):
@@ -159,6 +160,15 @@ def oracle(ctx):
             with open(os.path.join(p, name), 'w') as f:
                 f.write(f'[Container]\nImage=localhost/i\nEnvironment=ORIGIN={tag}\n')
             marks[tag] = (label, d)
+            if label == 'adm' and rnd.random() < 0.5:
+                # a drop-in directory for this unit in a place that is not among the directories its generator searches: for a unit below
+                # users/ the administrator's top directory (or another user's), for a system unit somewhere below users/
+                inside = d == 'users' or d.startswith('users/')
+                where = rnd.choice(['', 'sysonly', 'users/424242']) if inside else rnd.choice(['users', 'users/1001', 'users/shared'])
+                dd = os.path.join(stage, 'adm', where, name + '.d')
+                os.makedirs(dd, exist_ok=True)
+                with open(os.path.join(dd, 'zz-marker.conf'), 'w') as f:
+                    f.write(f'[Container]\nEnvironment=DROPIN={where or "top"}-for-{tag}\n')
         for d in tree:
             put('adm', d, 'adm')
         for d in ['', 'sub']:
